@@ -1,3 +1,3 @@
 SPECIFICATION Spec
-INVARIANTS RoundKeyCount WeakInvolution SemiWeakPairs AllDifferent NeighbourNotWeak
+INVARIANTS Complementation ParityIgnored RoundKeyCount WeakInvolution SemiWeakPairs AllDifferent NeighbourNotWeak
 CHECK_DEADLOCK FALSE
